@@ -134,6 +134,13 @@ CLAIMED = {
         "Value-level round-trip equality and byte equality with a second encoder are declined (need execution). Four table-driven or multi-layout pairs are listed as not modelled (rules/c17.py:NOT_MODELLED); out-of-domain integers (silent truncation by CPython's B/H/I/K units) are noted as outside the quantifier.",
         "DESIGN.md#c17",
     ),
+    "C14": (
+        "other",
+        "table agreement between the sending API and the receive paths (frame types, stream types, settings), set comparison between the frame kinds that can block on QPACK and the kinds the unblock path resumes, CFG reachability over the per-stream parse loops (no exit reachable from the loop avoids the buffer trim), def-use of the consumed offset and of the remaining frame size",
+        "Independence from chunking and interleaving is a relation between runs; the rules decide its structural necessary conditions on all paths: whatever the API can send the receiver can accept on that stream kind; a frame that blocks on QPACK is resumed as the same kind and its stream is never discarded while blocked; the parse loops only ever restart at an item boundary (consumed offset from buf.tell(), break on an incomplete item, buffer trimmed on every exit); partial DATA delivery is accounted exactly.",
+        "The run-to-run equality itself and the unchanged round trip of header lists / bodies are declined (they need execution, e.g. exhaustive splitting).",
+        "DESIGN.md#c14",
+    ),
 }
 
 NOT_APPLICABLE = {
